@@ -5,4 +5,5 @@ CONSTANTS
   PatSet = {}
   NormKinds = {}
   MaxHist = 0
+  MaxQHist = 0
 CHECK_DEADLOCK FALSE
